@@ -1,6 +1,7 @@
 """C09 — all front ends report the same findings: finding funnel, message funnel, LSP stale-version guard."""
 import re
-from ..query import deep_roots, ultimate_roots, describe_origin, field_path, TRANSPARENT, calls_in, path_avoiding
+from ..query import (deep_roots, ultimate_roots, describe_origin, field_path, TRANSPARENT, calls_in, path_avoiding, loops_reaching, iter_chain,
+                     DROPPING_ITER)
 
 EXPLANATION = (
     "Decided: R1 finding funnel — every front end that turns (rules, text) into findings (sg scan per file, sg scan --stdin, the "
@@ -10,12 +11,15 @@ EXPLANATION = (
     "through RuleConfig::get_message; raw reads of the `message` field elsewhere are listed. R3 stale versions — in the language "
     "server's change handler (coroutine CFG re-linked across await points) the replacement of the stored tree and the publication "
     "are dominated by the `stored.version > incoming.version -> return` test, the published version is the one stored, and close "
-    "removes the entry."
+    "removes the entry. R4 nothing is lost between the scan result and the listing: in the scan drivers, the JSON and GitHub processors "
+    "and the language server's diagnostics builder, every loop over findings reaches its emit call on each iteration (no `continue` in "
+    "front of it) and runs to exhaustion, and the iterator pipelines that carry findings to the printer contain no element-dropping adaptor."
 )
 NOT_DECIDED = (
     "Interleavings of concurrent LSP handlers (tower-lsp scheduling; on_open publishes before inserting); equality of ranges/texts "
     "across printers as values (C16); the language server does not scan injected documents of a host file at all (feature "
-    "difference, recorded as an observation)."
+    "difference, recorded as an observation); the GitHub format has no level for severity `hint` and omits those findings, and the colored "
+    "terminal report omits a fixable finding nested in the previous one (both by design, observations)."
 )
 TRUSTED = ["nightly rustc MIR incl. coroutine lowering", "tower-lsp delivers notifications to the handlers shown"]
 
@@ -30,6 +34,7 @@ def run(ctx):
     prog = ctx.prog
     ctx.rule("R1", "finding funnel: matches come only from CombinedScan::scan over collection-selected rules, with the unused-suppression rule registered")
     ctx.rule("R2", "message funnel: rule messages are rendered only through RuleConfig::get_message")
+    ctx.rule("R4", "no finding is dropped between the scan result and the listing (loops reach their emit on every iteration; pipelines have no dropping adaptor)")
     ctx.rule("R3", "LSP: stale document versions are ignored; the stored version is the one published; close removes the entry")
     fronts = [
         (r"^<ast_grep::scan::ScanWithConfig as ast_grep::utils::worker::PathWorker>::produce_item$", "get_rule_from_lang"),
@@ -178,3 +183,73 @@ def run(ctx):
         ctx.ob("R3", "close removes the entry", any(c.name == "remove" for c in cl[0].calls), "on_close calls map.remove(uri)", where=cl[0].loc())
     else:
         ctx.ob("R3", "on_close anchor", False, "found %d" % len(cl))
+
+    r4(ctx)
+
+
+PP = r"^<ast_grep::print::%s as ast_grep::print::PrintProcessor<alloc::vec::Vec<u8>>>::%s$"
+# (function, emit call names per loop, pipelines: (sink call name, index of the iterator/collection argument))
+R4_SITES = [
+    (r"^<ast_grep::scan::ScanWithConfig as ast_grep::utils::worker::PathWorker>::produce_item$", ["scan", "match_rule_on_file"], []),
+    (r"^<ast_grep::scan::ScanStdin as ast_grep::utils::worker::StdInWorker>::parse_stdin$", ["match_rule_on_file"], []),
+    (r"^ast_grep::scan::match_rule_on_file$", [], [("print_rule_diffs", 1), ("print_rule", 1)]),
+    (PP % ("json_print::JSONProcessor", "print_rule"), [], [("print_docs", 1)]),
+    (PP % ("json_print::JSONProcessor", "print_rule_diffs"), [], [("print_docs", 1)]),
+    (PP % ("json_print::JSONProcessor", "print_matches"), [], [("print_docs", 1)]),
+    (PP % ("json_print::JSONProcessor", "print_diffs"), [], [("print_docs", 1)]),
+    (r"^ast_grep::print::json_print::JSONProcessor::print_docs$", ["to_writer", "to_writer_pretty"], []),
+    (PP % ("cloud_print::CloudProcessor", "print_rule"), ["print_rule"], []),
+    (PP % ("cloud_print::CloudProcessor", "print_rule_diffs"), ["print_rule"], []),
+    (r"^ast_grep_lsp::Backend::<L>::get_diagnostics$", ["extend"], [("extend", 1)]),
+]
+
+
+def r4(ctx):
+    prog = ctx.prog
+    nloops = npipes = 0
+    for pat, emits, pipes in R4_SITES:
+        f = ctx.anchor("R4", pat)
+        if not f:
+            continue
+        short = f.id.split(" as ")[0].lstrip("<").split("::")[-1] + "::" + f.name if " as " in f.id else f.id.split("::", 1)[1]
+        if emits:
+            found = set()
+            seen_keys = {}
+            for c, es, skipping, has_some in loops_reaching(f, set(emits)):
+                nloops += 1
+                en = "|".join(sorted({e.name for e in es}))
+                seen_keys[en] = seen_keys.get(en, 0) + 1
+                found |= {e.name for e in es}
+                ctx.ob("R4", "%s/every item reaches %s%s" % (short, en, "" if seen_keys[en] == 1 else "#%d" % seen_keys[en]), has_some and not skipping,
+                       "each iteration passes the emit call before the next item is fetched" if has_some and not skipping else
+                       "an item can be skipped: from bb%s the loop head is reachable without passing %s — that finding is silently missing from this front end's listing" % (skipping, sorted({e.name for e in es})),
+                       where=f.loc(c.line))
+            if f.name == "print_docs":
+                # the first document is taken with next() outside the loops: it must be emitted as well
+                firsts = [c for c in f.calls if c.name == "next" and not f.in_loop(c.bb)]
+                ems = [e.bb for e in f.calls if e.name in emits]
+                heads = [c.bb for c in f.calls if c.name == "next" and f.in_loop(c.bb)]
+                from ..query import option_arms
+                ok = bool(firsts)
+                for c in firsts:
+                    for s in option_arms(f, c)["some"]:
+                        if path_avoiding(f, s, ems, heads + list(f.return_blocks())):
+                            ok = False
+                ctx.ob("R4", "%s/first document emitted" % short, ok, "the document taken before the loops is serialised on every style arm", where=f.loc())
+                found |= set(emits) & {e.name for e in f.calls}
+            missing = [e for e in emits if e not in found]
+            ctx.ob("R4", "%s/loops found" % short, not missing, "loops driving %s identified" % emits if not missing else "no next()-driven loop around %s (anchor lost: fail closed)" % missing, where=f.loc(), nontrivial=False)
+        for sink, ai in pipes:
+            calls = [c for g in prog.family(f) for c in g.calls if c.name == sink and c.bb in g.live_blocks and len(c.args) > ai]
+            if sink == "print_rule" and not calls:
+                continue
+            for c in calls:
+                npipes += 1
+                ad, lv = iter_chain(prog, c.fn, c.args[ai])
+                names = sorted({x[1].name for x in ad})
+                drop = sorted(set(names) & DROPPING_ITER)
+                ctx.ob("R4", "%s/pipeline into %s#%d" % (short, sink, calls.index(c)), not drop,
+                       "findings reach %s through %s — no element-dropping adaptor" % (sink, names or "a plain move") if not drop else
+                       "findings pass through %s on their way to %s: some are never listed by this front end" % (drop, sink), where=c.fn.loc(c.line))
+    ctx.floor("R4", "finding loops", nloops, 9)
+    ctx.floor("R4", "finding pipelines", npipes, 7)
